@@ -211,6 +211,9 @@ func (x *Explorer) RunConcrete(model map[string]string) []string {
 		got = append(got, c)
 	}
 	sort.Strings(got)
+	if len(x.R.EngineBugs)+len(x.R.Unsupported)+len(x.R.BoundHits) > 0 {
+		fmt.Fprintf(os.Stderr, "concrete replay: engine bugs=%v unsupported=%v bounds=%v\n", x.R.EngineBugs, x.R.Unsupported, x.R.BoundHits)
+	}
 	return got
 }
 
@@ -233,7 +236,7 @@ func (x *Explorer) confirm(v *Violation) {
 		for c := range x.viol {
 			got = append(got, c)
 		}
-		v.Notes = append(v.Notes, fmt.Sprintf("concrete re-execution did not reproduce this class (saw %v)", got))
+		v.Notes = append(v.Notes, fmt.Sprintf("concrete re-execution did not reproduce this class (saw %v; engine: bugs=%v unsupported=%v bounds=%v)", got, x.R.EngineBugs[len(savedR.EngineBugs):], x.R.Unsupported[len(savedR.Unsupported):], x.R.BoundHits[len(savedR.BoundHits):]))
 	}
 	x.viol = saved
 	*x.R = savedR
